@@ -16,8 +16,197 @@ import (
 	"github.com/prometheus/prometheus/promql"
 	"github.com/prometheus/prometheus/storage"
 
+	"github.com/prometheus/prometheus/promql/parser"
+
+	"github.com/thanos-community/promql-engine/execution/binary"
+	"github.com/thanos-community/promql-engine/execution/model"
 	"github.com/thanos-community/promql-engine/execution/scan"
 )
+
+var tableOps = map[string]parser.ItemType{
+	"+": parser.ADD, "-": parser.SUB, "*": parser.MUL, "/": parser.DIV,
+	"==": parser.EQLC, "!=": parser.NEQ, ">": parser.GTR, "<": parser.LSS, ">=": parser.GTE, "<=": parser.LTE,
+}
+
+func tableCards() []parser.VectorMatchCardinality {
+	return []parser.VectorMatchCardinality{parser.CardOneToOne, parser.CardManyToOne, parser.CardOneToMany}
+}
+
+// tableKernel drives binary.table (through the verif export) over the steps of the case and
+// compares with the Lean model of the tagged table and, for strictly increasing timestamps,
+// with the fresh-table-per-step model the engine model uses.
+func tableKernel(c *Case, lean *LeanDriver) Verdict {
+	v := Verdict{ID: c.ID, Query: c.Query, Oracle: "kernel", Native: true}
+	tc := c.KTable
+	if tc == nil {
+		v.Skipped = "no table case"
+		return v
+	}
+	high := make([]*uint64, len(tc.High))
+	for i, h := range tc.High {
+		if h >= 0 {
+			x := uint64(h)
+			high[i] = &x
+		}
+	}
+	low := make([][]uint64, len(tc.Low))
+	for i, l := range tc.Low {
+		for _, o := range l {
+			low[i] = append(low[i], uint64(o))
+		}
+	}
+	tbl, err := binary.VerifNewTable(tableCards()[tc.Card], tableOps[tc.Op], tc.N, high, low)
+	if err != nil {
+		v.Other = "table: " + err.Error()
+		return v
+	}
+	mk := func(t int64, xs [][2]int64) model.StepVector {
+		sv := model.StepVector{T: t}
+		for _, x := range xs {
+			sv.SampleIDs = append(sv.SampleIDs, uint64(x[0]))
+			sv.Samples = append(sv.Samples, float64(x[1]))
+		}
+		return sv
+	}
+	var real []string
+	mono := true
+	for i, st := range tc.Steps {
+		if i > 0 && st.T <= tc.Steps[i-1].T {
+			mono = false
+		}
+		out, bad := tbl.Exec(mk(st.T, st.Lhs), mk(st.T, st.Rhs), tc.Bool)
+		if bad {
+			real = append(real, "err")
+			break
+		}
+		var ps []string
+		for k := range out.SampleIDs {
+			ps = append(ps, fmt.Sprintf("%d:%s", out.SampleIDs[k], kbits(out.Samples[k])))
+			v.NonTriv = true
+		}
+		real = append(real, strings.Join(ps, "+"))
+	}
+	// protocol
+	enc := func(xs [][2]int64) string {
+		p := make([]string, len(xs))
+		for i, x := range xs {
+			p[i] = fmt.Sprintf("%d:%s", x[0], bits(float64(x[1])))
+		}
+		return strings.Join(p, ",")
+	}
+	var steps []string
+	for _, st := range tc.Steps {
+		steps = append(steps, fmt.Sprintf("%d/%s/%s", st.T, enc(st.Lhs), enc(st.Rhs)))
+	}
+	hs := make([]string, len(tc.High))
+	for i, h := range tc.High {
+		hs[i] = fmt.Sprint(h)
+	}
+	ls := make([]string, len(tc.Low))
+	for i, l := range tc.Low {
+		q := make([]string, len(l))
+		for k, o := range l {
+			q[k] = fmt.Sprint(o)
+		}
+		ls[i] = strings.Join(q, ".")
+	}
+	b := 0
+	if tc.Bool {
+		b = 1
+	}
+	line := fmt.Sprintf("kernel table %d %s %d %d h%s l%s %s", tc.Card, encS(tc.Op), b, tc.N,
+		strings.Join(hs, ","), strings.Join(ls, ";"), strings.Join(steps, "#"))
+	ans, aerr := lean.Ask([]string{"case " + c.ID, line, "end"})
+	if aerr != nil {
+		v.Crash = "lean: " + aerr.Error()
+		return v
+	}
+	var tagS, freshS string
+	for _, f := range strings.Fields(ans["kernel"]) {
+		if strings.HasPrefix(f, "tag=") {
+			tagS = f[4:]
+		}
+		if strings.HasPrefix(f, "fresh=") {
+			freshS = f[6:]
+		}
+	}
+	got := strings.Join(real, "#")
+	if got != tagS {
+		v.EngVsModel = "table vs tagged-table model: " + got + " vs " + tagS
+	}
+	if mono {
+		if tagS != freshS {
+			v.ModelVsSpec = "tagged-table model vs fresh table per step: " + tagS + " vs " + freshS
+		}
+		if got != freshS {
+			v.EngVsProm = "table vs fresh table per step: " + got + " vs " + freshS
+		}
+	}
+	v.Steps = len(tc.Steps)
+	v.NumSeries = tc.N
+	v.Features = []string{c.Query, fmt.Sprintf("card:%d", tc.Card)}
+	if !mono {
+		v.Features = append(v.Features, "nonmono")
+	}
+	return v
+}
+
+func (g *Gen) tableCase(c *Case) {
+	tc := &TableCase{Card: g.r.Intn(3), Op: g.pick("+", "-", "*", "==", "!=", ">", "<", ">=", "<="), Bool: g.chance(0.3)}
+	tc.N = 1 + g.r.Intn(5)
+	nh := 1 + g.r.Intn(5)
+	nl := 1 + g.r.Intn(4)
+	// the engine's join gives every high-cardinality series its own output; also exercise
+	// shared outputs, which is what duplicate detection is for
+	inj := g.chance(0.75)
+	if inj && tc.N < nh {
+		tc.N = nh
+	}
+	perm := g.r.Perm(tc.N)
+	for i := 0; i < nh; i++ {
+		switch {
+		case g.chance(0.15):
+			tc.High = append(tc.High, -1)
+		case inj:
+			tc.High = append(tc.High, perm[i])
+		default:
+			tc.High = append(tc.High, g.r.Intn(tc.N))
+		}
+	}
+	for i := 0; i < nl; i++ {
+		var l []int
+		for k := g.r.Intn(3); k > 0; k-- {
+			l = append(l, g.r.Intn(tc.N))
+		}
+		tc.Low = append(tc.Low, l)
+	}
+	nlhs, nrhs := nh, nl
+	if tc.Card == 2 {
+		nlhs, nrhs = nl, nh
+	}
+	t := g.pickI(-1, 0, 1000, 1_700_000_000_000)
+	for s := 1 + g.r.Intn(5); s > 0; s-- {
+		st := TableStep{T: t}
+		// a step vector holds every sample ID at most once, in any order
+		for _, id := range g.r.Perm(nlhs) {
+			if g.chance(0.75) {
+				st.Lhs = append(st.Lhs, [2]int64{int64(id), int64(g.r.Intn(7) - 3)})
+			}
+		}
+		for _, id := range g.r.Perm(nrhs) {
+			if g.chance(0.75) {
+				st.Rhs = append(st.Rhs, [2]int64{int64(id), int64(g.r.Intn(7) - 3)})
+			}
+		}
+		tc.Steps = append(tc.Steps, st)
+		if g.chance(0.12) {
+			t -= g.pickI(0, 0, 1000) // a repeated or earlier timestamp: outside the theorem
+		} else {
+			t += g.pickI(1, 1000, 60000)
+		}
+	}
+	c.KTable = tc
+}
 
 func seriesLine(s SeriesData) string {
 	var sb strings.Builder
@@ -53,6 +242,9 @@ func refsCSV(r []int64) string {
 }
 
 func kernelCase(c *Case, lean *LeanDriver) Verdict {
+	if c.Query == "kernel:table" {
+		return tableKernel(c, lean)
+	}
 	v := Verdict{ID: c.ID, Query: c.Query, Oracle: "kernel", Native: true}
 	data := c.Data()
 	if len(data) == 0 || len(c.Refs) == 0 {
@@ -202,10 +394,15 @@ func firstDiff(what string, refs []int64, a, b []string) string {
 // markers, and a sequence of reference times.
 func (g *Gen) kernelCase(i int) *Case {
 	c := &Case{ID: fmt.Sprintf("kernel-%d", i), Profile: "kernel"}
-	if i%2 == 0 {
+	switch i % 3 {
+	case 0:
 		c.Query = "kernel:selectpoint"
-	} else {
+	case 1:
 		c.Query = "kernel:selectpoints"
+	default:
+		c.Query = "kernel:table"
+		g.tableCase(c)
+		return c
 	}
 	n := int(g.pickI(0, 1, 2, 3, 5, 8, 13, 30, 60))
 	t := int64(g.pickI(0, 1000, 1_700_000_000_000, -5000))
